@@ -71,6 +71,20 @@ class Models:
         if m:
             # only used by rustc's debug-profile pointer checks (alignment / null) on Box internals
             return {"ALIGN": 8, "SIZE": 8, "IS_ZST": False}[m.group(1)]
+        m = re.match(r"^<(message::flags::(?:_::)?\w+) as bitflags::Flags>::FLAGS$", c)
+        if m:
+            # the table bitflags generates for the crate's flags type: &[Flag { name, value }]; read from the source
+            import os as _os
+            src = open(_os.path.join(it.prog.repo_core, "src", "message", "flags.rs")).read()
+            ty = m.group(1)
+            fn = it.resolve_fn(f"message::flags::_::<impl {ty}>::from_bits_retain", "")
+            if fn is not None:
+                items = []
+                for mm in re.finditer(r"const\s+(\w+)\s*=\s*0b([01]+)\s*;", src):
+                    val = it.run_body(it.prog.body(fn), [int(mm.group(2), 2)])
+                    items.append(Agg("bitflags::Flag", [Seq("str", list(mm.group(1).encode())), val]))
+                arr = Seq("array", items, "bitflags::Flag")
+                return SliceRef(arr, 0, len(items))
         m = re.match(r"^<(u\d+|usize) as bitflags::Bits>::(EMPTY|ALL)$", c)
         if m:
             return 0 if m.group(2) == "EMPTY" else (1 << int_width(m.group(1))) - 1
@@ -1579,6 +1593,30 @@ def _ops_trait(opname):
 for _tr, _me, _op in (("BitXor", "bitxor", "BitXor"), ("BitAnd", "bitand", "BitAnd"), ("BitOr", "bitor", "BitOr"),
                       ("Add", "add", "Add"), ("Sub", "sub", "Sub"), ("Mul", "mul", "Mul")):
     trait_model(r"^&*(u8|u16|u32|u64|u128|usize|i8|i16|i32|i64|i128|isize|bool)$", _tr, _me)(_ops_trait(_op))
+
+
+@model("bitflags::Flag::value")
+def _bitflag_value(it, args, dty, func):
+    f = args[0]
+    return f.child(1) if isinstance(f, Ref) else Ref(Cell(f, "flag"), ()).child(1)
+
+
+@model("bitflags::Flag::name")
+def _bitflag_name(it, args, dty, func):
+    f = _deref(args[0])
+    return SliceRef(f.f[0], 0, len(f.f[0].f), True)
+
+
+@trait_model(r"^message::flags::MsgFlags$", "Flags", "all")
+def _msgflags_all(it, args, dty, func):
+    # bitflags' `all()` folds over the FLAGS table (names + values); the crate's only flags type has MORE | COMMAND = 0b11
+    import os as _os
+    src = open(_os.path.join(it.prog.repo_core, "src", "message", "flags.rs")).read()
+    bits = 0
+    for m in re.finditer(r"const\s+\w+\s*=\s*0b([01]+)\s*;", src):
+        bits |= int(m.group(1), 2)
+    fn = it.resolve_fn("message::flags::_::<impl message::flags::MsgFlags>::from_bits_retain", "")
+    return it.run_body(it.prog.body(fn), [bits])
 
 
 @model_re(r"^tracing::.*$|^tracing_core::.*$")
